@@ -13,7 +13,7 @@ import os
 from vlib import (Infra, go_test, l1, log, monitor, read_ndjson, report, tlc, trace_of)
 
 INVS = {
-    "C01": {"SuccessComplete", "SuccessBytes", "PresentBytes", "RootTagged", "ReturnedRoot", "NothingElse"},
+    "C01": {"SuccessComplete", "SuccessBytes", "EdgesResolvable", "PresentBytes", "RootTagged", "ReturnedRoot", "NothingElse"},
     "C02": {"ClosedAtPush", "PushAfterSucc", "ClosedFinal", "FaultSurfaces", "NoSpuriousError", "NoHang",
             "RetrySucceeds"},
     "C03": {"ExtAllAncestors", "ExtAllBytes", "ExtDepthBound", "SuccessComplete", "SuccessBytes", "RootTagged",
@@ -37,8 +37,8 @@ def l1cfg(n, c, faults, cancel, live=False):
 PLANS = {
     ("C01", "quick"): "exh:3:400,random:600",
     ("C01", "thorough"): "exh:4:2000,random:20000",
-    ("C02", "quick"): "faults:3:3,cancel:3:2,random:500",
-    ("C02", "thorough"): "faults:4:6,cancel:4:3,exh:3:400,random:20000",
+    ("C02", "quick"): "faults:3:2,cancel:3:2,faultsR:12:2,random:500,ext:500",
+    ("C02", "thorough"): "faults:4:6,cancel:4:3,exh:3:400,faultsR:300:4,random:20000,ext:20000",
     ("C03", "quick"): "ext:1500",
     ("C03", "thorough"): "ext:40000",
     ("C04", "quick"): "exh:3:400,faults:3:1,random:600,ext:200",
@@ -79,7 +79,9 @@ def split_l2(ctx, files, max_events):
                     groups[key].extend(cur)
                     total += len(cur)
                 cur, key = [], None
-                if r["api"] == "copygraph" and r["n"] <= 5 and r["root"] == r["n"] and total < max_events:
+                if (r["api"] == "copygraph" and r["n"] <= 5 and r["root"] == r["n"] and total < max_events
+                        and r["srckind"] == "memory" and r["dstkind"] == "memory" and r["cancel"] >= 0
+                        and "foreign" not in r["kinds"]):
                     key = (r["n"], r["c"])
             if cur is not None:
                 cur.append(line)
